@@ -42,6 +42,22 @@ class Inst:
         self.log.append(("build", self.qual, state))
         self.state.append(state)
 
+    # container protocols the decompiled program uses on a value that is not a display (x.update({...}), x[k] = v, x.append / extend / add)
+    def update(self, *a, **k):
+        self.state.append(("update", a, k))
+
+    def __setitem__(self, k, v):
+        self.state.append(("setitem", k, v))
+
+    def append(self, v):
+        self.state.append(("append", v))
+
+    def extend(self, vs):
+        self.state.append(("extend", list(vs)))
+
+    def add(self, v):
+        self.state.append(("add", v))
+
     def __repr__(self):
         return f"Ret({self.qual})"
 
@@ -89,9 +105,15 @@ def run_decompiled(src, log, real=False):
     real=True (plain data): the data constructors pickle itself uses for plain data are the real ones (builtins above, _codecs.encode)"""
     tree = ast.parse(src)
     env = {"__builtins__": {}}
-    body = []
     import builtins
     import _codecs
+    assigned = {t.id for st in tree.body for t in ast.walk(st) if isinstance(t, ast.Name) and isinstance(t.ctx, ast.Store)}
+    imported = {(a.asname or a.name).split(".")[0] for st in tree.body if isinstance(st, (ast.Import, ast.ImportFrom)) for a in st.names}
+    for n in {x.id for x in ast.walk(tree) if isinstance(x, ast.Name)} - imported - assigned:
+        # a name the program neither imports nor assigns: a builtin (also Python 2 ones such as xrange) resolved in the ambient builtins
+        env[n] = getattr(builtins, n) if (real and n in SAFE_REAL) else Stand(f"builtins.{n}", log)
+    env["UNPICKLER"] = type("U", (), {"persistent_load": staticmethod(lambda pid: ("PERS", pid))})
+    # statement by statement, in program order: an import binds its name at that point (a later import of the same name re-binds it)
     for st in tree.body:
         if isinstance(st, ast.ImportFrom):
             for a in st.names:
@@ -105,13 +127,7 @@ def run_decompiled(src, log, real=False):
             for a in st.names:
                 env[(a.asname or a.name).split(".")[0]] = Stand(a.name, log)
         else:
-            body.append(st)
-    assigned = {t.id for st in body for t in ast.walk(st) if isinstance(t, ast.Name) and isinstance(t.ctx, ast.Store)}
-    for n in {x.id for x in ast.walk(tree) if isinstance(x, ast.Name)} - set(env) - assigned:
-        # a name the program neither imports nor assigns: a builtin (also Python 2 ones such as xrange) resolved in the ambient builtins
-        env[n] = getattr(builtins, n) if (real and n in SAFE_REAL) else Stand(f"builtins.{n}", log)
-    env["UNPICKLER"] = type("U", (), {"persistent_load": staticmethod(lambda pid: ("PERS", pid))})
-    exec(compile(ast.Module(body=body, type_ignores=[]), "<decompiled>", "exec"), env)
+            exec(compile(ast.Module(body=[st], type_ignores=[]), "<decompiled>", "exec"), env)
     return env.get("result")
 
 
